@@ -6,7 +6,7 @@
           len, value ids (len of them; equal ids = logically equal values), nvd, vd1..
      then per column [type code] [field decoration], then the batches as physical trees (not used here). *)
 From Coq Require Import List ZArith NArith String Bool Arith.
-From AV Require Import Base.Codec Model.C09_Layout Model.D_C09 Model.C04_Dict Model.C04_Walk Model.C04_Frame Model.C04_Flight.
+From AV Require Import Base.Codec Model.C09_Layout Model.D_C09 Model.C04_Dict Model.C04_Walk Model.C04_Frame Model.C04_Flight Model.C04_Rebase Model.C04_Write.
 Import ListNotations.
 Local Open Scope string_scope.
 Local Open Scope list_scope.
@@ -170,13 +170,79 @@ Definition p_file_layout (a : args) : list (list Z) :=
 Definition p_flight_split (a : args) : list (list Z) :=
   (* .post: args ++ [[-7777]] ++ output *)
   let rows := zn (nth 0 (arg 0 a) 0%Z) in
-  let max := zn (nth 1 (arg 0 a) 0%Z) in
-  let size := zn (nth 0 (arg 2 a) 0%Z) in
+  let max := Z.to_N (nth 1 (arg 0 a) 0%Z) in
+  let size := Z.to_N (nth 0 (arg 2 a) 0%Z) in
   let pieces := map zn (tl (arg 2 a)) in
   [[zb (list_eqb_with Nat.eqb pieces (map snd (split rows size max)))]].
+
+(* ---- byte-level postcondition on a single-column stream:
+     [v5; alignment] <physical tree of array.to_data()> [-7777]
+     then per message [kind; isDelta; dict id; rows; nbufs] [nodes: len, null_count, ...] [variadic counts] nbufs buffer groups.
+   Expected: one dictionary batch per dictionary of the column (encode order, ids 0,1,..) with the body of its
+   values array, then the record batch with the body of the column. *)
+Notation omsg := (list Z * list Z * list Z * list (list Z))%type.
+Fixpoint parse_msgs (fuel : nat) (l : args) : list omsg :=
+  match fuel with O => [] | S f =>
+    match l with
+    | h :: nodes :: vars :: r =>
+        let '(bufs, r') := take_groups (zn (nth 4 h 0%Z)) r in (h, nodes, vars, bufs) :: parse_msgs f r'
+    | _ => []
+    end
+  end.
+Definition lz_eqb (x y : list Z) : bool := list_eqb_with Z.eqb x y.
+Definition omsg_eqb (x y : omsg) : bool :=
+  let '(h1, n1, v1, b1) := x in let '(h2, n2, v2, b2) := y in
+  lz_eqb h1 h2 && lz_eqb n1 n2 && lz_eqb v1 v2 && list_eqb_with lz_eqb b1 b2.
+Definition expect_msg (kind id : Z) (v5 : bool) (a : parr) : omsg :=
+  let '(nodes, bufs) := w_column v5 a in
+  ([kind; 0%Z; id; Z.of_nat (p_len a); Z.of_nat (List.length bufs)],
+   flat_map (fun p => [Z.of_nat (fst p); Z.of_nat (snd p)]) nodes,
+   map Z.of_nat (var_counts a), map zs_of_bytes bufs).
+Fixpoint first_diff (i : Z) (x y : list omsg) : Z :=
+  match x, y with
+  | [], [] => (-1)%Z
+  | a :: x', b :: y' => if omsg_eqb a b then first_diff (i + 1) x' y' else i
+  | _, _ => i
+  end.
+Fixpoint split_at_sep (l : args) : args * args :=
+  match l with
+  | [] => ([], [])
+  | g :: r => match g with
+              | [z] => if Z.eqb z (-7777) then ([], r) else let '(a, b) := split_at_sep r in (g :: a, b)
+              | _ => let '(a, b) := split_at_sep r in (g :: a, b)
+              end
+  end.
+Definition p_encode (a : args) : list (list Z) :=
+  let v5 := zbool (nth 0 (arg 0 a) 0%Z) in
+  let '(tree, obs) := split_at_sep (tl a) in
+  match parse_arr (S (List.length tree)) tree with
+  | Some (p, _) =>
+      let ds := dict_values p in
+      let want := map (fun q => expect_msg 2 (Z.of_nat (fst q)) v5 (snd q)) (combine (seq 0 (List.length ds)) ds)
+                  ++ [expect_msg 3 0 v5 p] in
+      let got := parse_msgs (S (List.length obs)) obs in
+      let d := first_diff 0 want got in
+      if Z.eqb d (-1) then [[1%Z]] else [[0%Z; d]]
+  | None => [[(-3)%Z]]
+  end.
+
+(* diagnostic: the expected messages of [p_encode] in the observed format *)
+Definition p_encode_want (a : args) : list (list Z) :=
+  let v5 := zbool (nth 0 (arg 0 a) 0%Z) in
+  let '(tree, obs) := split_at_sep (tl a) in
+  match parse_arr (S (List.length tree)) tree with
+  | Some (p, _) =>
+      let ds := dict_values p in
+      let want := map (fun q => expect_msg 2 (Z.of_nat (fst q)) v5 (snd q)) (combine (seq 0 (List.length ds)) ds)
+                  ++ [expect_msg 3 0 v5 p] in
+      flat_map (fun m => let '(h, n, v, b) := m in h :: n :: v :: b) want
+  | None => [[(-3)%Z]]
+  end.
 
 Definition ops_C04 : list (string * opfun) :=
   [ ("c04.roundtrip.spec", s_roundtrip);
     ("c04.messages", m_messages);
     ("c04.file_layout.post1", p_file_layout);
-    ("c04.flight_split.post", p_flight_split) ].
+    ("c04.flight_split.post", p_flight_split);
+    ("c04.encode.post1", p_encode);
+    ("c04.encode.want.post1", p_encode_want) ].
